@@ -767,8 +767,8 @@ class FunctionNormalizer:
             return False
         v = st.value
         if any(isinstance(n, (ast.Call, ast.Await, ast.Yield, ast.YieldFrom, ast.NamedExpr, ast.Lambda, ast.ListComp, ast.SetComp, ast.DictComp,
-                              ast.GeneratorExp, ast.IfExp, ast.BoolOp)) for n in ast.walk(v)):
-            return False
+                              ast.GeneratorExp, ast.IfExp, ast.BoolOp, ast.Dict, ast.List, ast.Set)) for n in ast.walk(v)):
+            return False  # (a display builds a NEW mutable object each time it is evaluated: two uses of the local share one object)
         if not isinstance(nxt, (ast.Assign, ast.AugAssign, ast.Expr, ast.Return)):
             return False
         uses = _loads(nxt, t)
@@ -1722,12 +1722,32 @@ class _Statementise(ast.NodeTransformer):
             return [_loc(ast.If(test=value.test, body=body, orelse=orelse), st)]
         return [make(value)]
 
+    def _prune_self(self, stmts):
+        """`x = x` arms of an expanded conditional assignment do nothing: `if c: x = A else: x = x` reads `if c: x = A`."""
+        def noop(s):
+            return isinstance(s, ast.Assign) and len(s.targets) == 1 and isinstance(s.targets[0], ast.Name) and isinstance(s.value, ast.Name) \
+                and s.value.id == s.targets[0].id
+        out = []
+        for s in stmts:
+            if isinstance(s, ast.If):
+                s.body, s.orelse = self._prune_self(s.body), self._prune_self(s.orelse)
+                if not s.body and not s.orelse:
+                    if any(isinstance(n, (ast.Call, ast.Await, ast.NamedExpr)) for n in ast.walk(s.test)):
+                        out.append(_loc(ast.Expr(value=s.test), s))
+                    continue
+                if not s.body:
+                    s.test, s.body, s.orelse = _NNF().visit(negate(s.test)), s.orelse, []
+                out.append(s)
+            elif not noop(s):
+                out.append(s)
+        return out
+
     def _block(self, body):
         out = []
         for st in body:
             st = self.visit(st)
             if isinstance(st, ast.Assign) and isinstance(st.value, ast.IfExp):
-                out += self._expand(st, st.value, lambda v, st=st: _loc(ast.Assign(targets=copy.deepcopy(st.targets), value=v), st))
+                out += self._prune_self(self._expand(st, st.value, lambda v, st=st: _loc(ast.Assign(targets=copy.deepcopy(st.targets), value=v), st)))
             elif isinstance(st, ast.Return) and isinstance(st.value, ast.IfExp):
                 out += self._expand(st, st.value, lambda v, st=st: _loc(ast.Return(value=v), st))
             else:
